@@ -571,4 +571,89 @@ theorem render_single_line_unchanged (src : Chars) (s e : Nat) (hs : s ≤ e) (h
 example : (posAt [120, 32, 58, 61, 32, 49, 10, 121, 32, 58, 61, 32] 7).lineStart
     = (posAt [120, 32, 58, 61, 32, 49, 10, 121, 32, 58, 61, 32] 10).lineStart := by decide
 
+/-! ## 8. several lexers: a quoted line is a function of the lexer's own input
+
+    The world of `Model.lean` (`World`, `WOp`): any number of lexers, created at any time (one per
+    interpolated fragment of a template string while the outer parser is at work; one per script
+    of a host), each read to its EOF token at any time. -/
+
+/-- reading a lexer to the end changes no lexer's input -/
+theorem inputs_markEOF (i : Nat) (w : World) : (markEOF i w).inputs = w.inputs := by
+  induction w generalizing i with
+  | nil => cases i <;> rfl
+  | cons l ls ih =>
+    cases i with
+    | zero => rfl
+    | succ i =>
+      have := ih i
+      unfold World.inputs at this ⊢
+      simp only [markEOF, List.map_cons, this]
+
+/-- one operation only ever appends an input to the list of inputs -/
+theorem inputs_step (w : World) (op : WOp) : ∃ ext, (w.step op).inputs = w.inputs ++ ext := by
+  cases op with
+  | new input => exact ⟨[input], by simp [World.step, World.inputs]⟩
+  | drain i => exact ⟨[], by simp [World.step, inputs_markEOF]⟩
+  | quote i off eof => exact ⟨[], by simp [World.step]⟩
+
+/-- any sequence of operations only ever appends inputs -/
+theorem inputs_steps (ops : List WOp) (w : World) :
+    ∃ ext, (ops.foldl World.step w).inputs = w.inputs ++ ext := by
+  induction ops generalizing w with
+  | nil => exact ⟨[], by simp⟩
+  | cons op ops ih =>
+    obtain ⟨e1, h1⟩ := inputs_step w op
+    obtain ⟨e2, h2⟩ := ih (w.step op)
+    exact ⟨e1 ++ e2, by rw [List.foldl_cons, h2, h1, List.append_assoc]⟩
+
+/-- **Frame property of `GetLineText`.**  For every world, every lexer `i` of it and EVERY
+    sequence of later operations — any number of other lexers created on any inputs and read to
+    their ends, lexer `i` itself read to its EOF token, other lines quoted — the line lexer `i`
+    quotes for a token (any offset, EOF or not) is the line it quoted before. -/
+theorem quote_frame (w : World) (ops : List WOp) (i : Nat) (h : i < w.length) (off : Nat) (eof : Bool) :
+    (ops.foldl World.step w).quote i off eof = w.quote i off eof := by
+  obtain ⟨ext, he⟩ := inputs_steps ops w
+  have hl : i < w.inputs.length := by simpa [World.inputs] using h
+  unfold World.quote
+  rw [he, List.getElem?_append_left hl]
+
+/-- **The quoted line depends on the lexer's own input only.**  Whatever happened before
+    `lexer.New(input)` (operations `pre` from the empty world) and whatever happens after it
+    (operations `post`), `GetLineText` of that lexer is `getLineText input` — the function of ONE
+    text that `quoted_line_verbatim` and the diagnostics correspondence are about. -/
+theorem quote_own_input (pre post : List WOp) (input : Chars) (off : Nat) (eof : Bool) :
+    (post.foldl World.step ((pre.foldl World.step []).step (.new input))).quote
+        (pre.foldl World.step []).length off eof = getLineText input off eof := by
+  rw [quote_frame _ post _ (by simp [World.step])]
+  simp [World.quote, World.inputs, World.step]
+
+/-- **An error of the outer parser after template fragments quotes the outer text.**  For every
+    program text `outer`, every list of interpolated fragments `frags` (any number, any texts,
+    longer or shorter than `outer`) and every token offset: after the outer lexer has been read
+    to its EOF token and one lexer per fragment has been created and read to the end, the outer
+    lexer quotes `getLineText outer`. -/
+theorem quote_after_template_fragments (outer : Chars) (frags : List Chars) (off : Nat) (eof : Bool) :
+    ((templateOps outer frags).foldl World.step []).quote 0 off eof = getLineText outer off eof := by
+  unfold templateOps
+  rw [List.foldl_append]
+  rw [quote_frame _ _ 0 (by simp [World.step, markEOF])]
+  simp [World.quote, World.inputs, World.step, markEOF]
+
+/-- … and that line is verbatim the line of the OUTER text the token lies on (non-EOF token at an
+    offset of the text): `quoted_line_verbatim` carried through the frame property. -/
+theorem world_quote_verbatim (pre post : List WOp) (input : Chars) (off : Nat) (h : off ≤ input.length) :
+    (post.foldl World.step ((pre.foldl World.step []).step (.new input))).quote
+        (pre.foldl World.step []).length off false =
+      (input.drop (posAt input off).lineStart).take (off - (posAt input off).lineStart)
+        ++ (input.drop off).takeWhile (· != 10) := by
+  rw [quote_own_input, quoted_line_verbatim input off h]
+
+/-- non-vacuity / the scenario of the record: `print('t{user}'` (15 runes, the closing bracket is
+    missing), the fragment `user` lexed in between: the outer lexer still quotes `print('t{user}'`
+    for its EOF token, and the Spec holds -/
+example : ((templateOps [112, 114, 105, 110, 116, 40, 39, 116, 123, 117, 115, 101, 114, 125, 39] [[117, 115, 101, 114]]).foldl World.step []).quote 0 15 true
+    = [112, 114, 105, 110, 116, 40, 39, 116, 123, 117, 115, 101, 114, 125, 39] := by decide
+example : worldQuoteOk ([120, 32, 58, 61, 32, 49, 10] ++ [112, 114, 105, 110, 116, 40, 39, 116, 123, 117, 115, 101, 114, 125, 39]) 7
+    [112, 114, 105, 110, 116, 40, 39, 116, 123, 117, 115, 101, 114, 125, 39] = true := by decide
+
 end Risor.C20
